@@ -105,3 +105,7 @@ Definition rx_o_full : roracle := mkRo (px_lay 0 3) false (ex_slot 0 6).
 Definition rx_hdr_2pc : bytes := ex_hdr (RECOVERY_REQUIRED + TWO_PHASE_COMMIT) ex_P ex_Qnew.
 Definition rx_d_2pc : dsum := mkDsum rx_hdr_2pc 2048 false [(512, 2)] true None.
 Definition rx_o_quick : roracle := mkRo (px_lay 0 3) true (ex_slot 0 7).
+
+(* a Merkle idealisation in which a commit's page does not depend on the transaction id, so that the repair
+   commit (same root, next transaction id) names the same page as the commit it re-publishes *)
+Definition ex_expect2 (s : bytes) : list (N * bytes) := [(512 * (1 + nth 8 s 0), [nth 8 s 0])].
